@@ -59,7 +59,7 @@ class RenegingQueuedResource(QueuedResource):
         default_patience_s: float = float("inf"),
         policy: QueuePolicy | None = None,
     ):
-        super().__init__(name, policy=policy or FIFOQueue())
+        super().__init__(name, policy=policy if policy is not None else FIFOQueue())
         self.reneged_target = reneged_target
         self.default_patience_s = default_patience_s
         self._served = 0
